@@ -103,6 +103,10 @@ fn hybrid_loco(p: &Value) -> anyhow::Result<Locomotive> {
         &[("mass", json!(iv(p, "mass", 1024) as f64)), ("ballast_mass", Value::Null), ("baseline_mass", Value::Null),
           ("mu", Value::Null), ("force_max", json!(1.0e6))],
     )?;
+    // mid-window state of charge: the default sits at the top of the window where the hybrid refuses any regeneration
+    if let altrios_core::consist::locomotive::PowertrainType::HybridLoco(h) = &mut l.loco_type {
+        h.res.state.soc = uc::R * (iv(p, "soc_pct", 50) as f64 / 100.0);
+    }
     l.set_save_interval(None);
     l.init()?;
     Ok(l)
@@ -290,6 +294,7 @@ fn run_ss(desc: &Value, tr: &mut Tracer) -> anyhow::Result<()> {
     }));
     tr.emit(ss_step_json(0, &sim.state, &sim.loco_con, towed));
     let mut steps = 0usize;
+    let mut intact = true;
     while sim.state.i < sim.speed_trace.len() && steps < STEP_CAP {
         let i = sim.state.i;
         match sim.step() {
@@ -298,6 +303,8 @@ fn run_ss(desc: &Value, tr: &mut Tracer) -> anyhow::Result<()> {
                 // which check refused the step: the negative-speed guard or anything else (consist, path end)
                 let msg = errtxt(&e);
                 let why = if msg.contains("self.speed_trace.speed[self.state.i") && msg.contains(">= si::Velocity::ZERO") { "neg" } else { "other" };
+                // the guard sits at the top of solve_step; any later Err leaves consist / locomotives half-updated
+                intact = why == "neg";
                 tr.emit(json!({"ev":"StepErr","k":i,"why":why,"msg":msg}));
                 break;
             }
@@ -308,7 +315,9 @@ fn run_ss(desc: &Value, tr: &mut Tracer) -> anyhow::Result<()> {
     let days = iv(desc, "days", 7) as i32;
     let slts = SpeedLimitTrainSim::new("t".into(), &[], &[], sim.loco_con.clone(), sim.state, parts_res, parts_path,
                                        parts_brake, Some(1), Some(days), None);
-    tr.emit(get_json(&slts, days));
+    if intact {
+        tr.emit(get_json(&slts, days));
+    }
     tr.emit(json!({"ev":"Done","steps":steps,"i":sim.state.i,"n":sim.speed_trace.len(),
                    "hist":sim.history.len(),"chist":sim.loco_con.history.len()}));
     Ok(())
@@ -544,7 +553,9 @@ fn run_sl(desc: &Value, tr: &mut Tracer) -> anyhow::Result<()> {
         }
         steps += 1;
     }
-    tr.emit(get_json(&sim, days));
+    if result != "err" {
+        tr.emit(get_json(&sim, days));
+    }
     tr.emit(json!({"ev":"Done","steps":steps,"result":result,"hist":sim.history.len(),"chist":sim.loco_con.history.len()}));
     Ok(())
 }
